@@ -405,7 +405,50 @@ func (engine) Generate(r *lib.Rng, tier string, i int) any {
 	}
 	// half of the cases make their context with WithCancelCause / WithDeadlineCause: whoever cancels gives a cause
 	c.Cause = r.Chance(50, 100)
+	// the first two calls on the fresh runnable at the same time (not with a node that cancels "the" context of
+	// the run, not resumed: the harness keeps one cancel function / one set of rerun marks per case)
+	if !c.Twice && !c.Resume && !hasBeh(c.G, "cancel") && r.Chance(12, 100) {
+		c.Conc = true
+	}
+	// tool calls that name a tool their ToolsNode does not have (answered by the node's UnknownToolsHandler)
+	for _, s := range g.slots {
+		if s.t != nil && s.t.Beh != "convpanic" && r.Chance(15, 100) {
+			s.t.Unknown = true
+		}
+	}
+	// local state used by the bodies themselves (not in resumed cases: the state would have to be a registered
+	// serializable type)
+	if !c.Resume {
+		g.states(c.G, false)
+	}
 	return c
+}
+
+// states: 15% of the graphs, at every level, declare a local state; the lambdas and tool calls that find
+// one in their context (their own graph's or one of a graph around it) mostly use it through
+// compose.ProcessState: 45% raise their fault INSIDE the handler they pass to it, 25% update the state first.
+func (g *gen) states(gr *Graph, scoped bool) {
+	r := g.r
+	gr.State = r.Chance(15, 100)
+	scoped = scoped || len(stateOpts(gr)) > 0
+	for _, st := range gr.Stages {
+		for _, n := range st {
+			switch n.Kind {
+			case "sub":
+				g.states(n.Sub, scoped)
+			case "lam":
+				if scoped {
+					n.St = g.weighted(30, 45, 25)
+				}
+			case "tools":
+				for k := range n.Tools {
+					if scoped && n.Tools[k].Beh != "convpanic" {
+						n.Tools[k].St = g.weighted(30, 45, 25)
+					}
+				}
+			}
+		}
+	}
 }
 
 // keys: a fifth of the nodes of the Graph / Chain graphs of the case get an output key; a node behind a keyed
